@@ -168,7 +168,7 @@ def coro_stack(coro):
         fr = getattr(coro, 'cr_frame', None) or getattr(coro, 'gi_frame', None)
         if fr is None:
             st = getattr(coro, '_state', None)
-            out.append(type(coro).__name__ + (':' + st if isinstance(st, str) else ''))
+            out.append((type(coro).__name__ + (':' + st if isinstance(st, str) else ''), -1))     # (a pair like the frames: stacks must sort)
             break
         out.append((fr.f_code.co_qualname, fr.f_lasti))
         coro = getattr(coro, 'cr_await', None) or getattr(coro, 'gi_yieldfrom', None)
@@ -245,7 +245,7 @@ def fingerprint(loop, objs, extra=()):
                 v = _canon(v, now, True, 2 if o is objs[0] else 0)
             d.append((k, v))
         parts.append(tuple(d))
-    tasks = tuple(sorted(coro_stack(t.get_coro()) for t in asyncio.all_tasks(loop) if not t.done()))
+    tasks = tuple(sorted((coro_stack(t.get_coro()) for t in asyncio.all_tasks(loop) if not t.done()), key=repr))
     ready = tuple(getattr(hd._callback, '__qualname__', type(hd._callback).__name__)
                   for hd in loop._ready if not hd._cancelled)
     sched = tuple(sorted((round(hd.when() - now, 6), getattr(hd._callback, '__qualname__', '?'))
